@@ -325,6 +325,59 @@ Inv_InputsDistinct ==
   pool # <<>> => Cardinality(Names(Last.ti)) = Len(Last.ti)
 
 -----------------------------------------------------------------------------
+(* homogeneity in the log-valued tensor leaves (C08, float range).  In the (logaddexp, add)
+   semiring a term in which every monomial contains the same number d of tensor leaves
+   satisfies  [[t with every leaf + c]] = [[t]] + d*c.  HomDeg computes d structurally (HD_None:
+   not homogeneous / outside the fragment; HD_Any: the constant -inf, homogeneous of every
+   degree), Inv_Homogeneous checks the law on every reachable program for c = log 2 (exactly
+   representable), and the harness uses it with |c| = 400, where a naive exp over/underflows:
+   the exact algebra cannot hold log k - 400, the law can. *)
+HD_None == -1
+HD_Any == 99
+HdSum(a, b) == IF a = HD_None \/ b = HD_None THEN HD_None
+               ELSE IF a = HD_Any \/ b = HD_Any THEN HD_Any ELSE a + b
+HdJoin(a, b) == IF a = HD_None \/ b = HD_None THEN HD_None
+                ELSE IF a = HD_Any THEN b ELSE IF b = HD_Any THEN a
+                ELSE IF a = b THEN a ELSE HD_None
+RECURSIVE HomDeg(_)
+HomDeg(t) ==
+  CASE t.c = "Ten" -> IF t.dt = 0 /\ \A k \in 1..Len(t.data) : (IsLogish(t.data[k]) \/ t.data[k] = NegInf)
+                      THEN 1 ELSE HD_None
+    [] t.c = "Num" -> IF t.v = NegInf THEN HD_Any ELSE IF IsLogish(t.v) /\ t.dt = 0 THEN 0 ELSE HD_None
+    [] t.c = "Bin" -> IF t.op.n = "add" THEN HdSum(HomDeg(t.l), HomDeg(t.r))
+                      ELSE IF t.op.n = "logaddexp" THEN HdJoin(HomDeg(t.l), HomDeg(t.r))
+                      ELSE HD_None
+    [] t.c = "Red" -> IF t.op = "logaddexp" THEN HomDeg(t.arg) ELSE HD_None
+    [] t.c = "Con" -> IF t.bin = "add" /\ t.red \in {"logaddexp", "nullop"}
+                      THEN LET RECURSIVE go(_)
+                               go(k) == IF k > Len(t.terms) THEN 0 ELSE HdSum(HomDeg(t.terms[k]), go(k + 1))
+                           IN go(1)
+                      ELSE HD_None
+    [] OTHER -> HD_None
+
+ShiftScalar(v) == IF v = NegInf THEN v ELSE IF MulOK(2, LN(v)) THEN MkL(2 * LN(v), LD(v)) ELSE Undef
+RECURSIVE ShiftLeaves(_)
+\* the raw term with log 2 added to every tensor leaf
+ShiftLeaves(t) ==
+  CASE t.c = "Ten" -> [t EXCEPT !.data = [k \in 1..Len(t.data) |-> ShiftScalar(t.data[k])]]
+    [] t.c = "Bin" -> [t EXCEPT !.l = ShiftLeaves(t.l), !.r = ShiftLeaves(t.r)]
+    [] t.c = "Red" -> [t EXCEPT !.arg = ShiftLeaves(t.arg)]
+    [] t.c = "Con" -> [t EXCEPT !.terms = [k \in 1..Len(t.terms) |-> ShiftLeaves(t.terms[k])]]
+    [] OTHER -> t
+
+Inv_Homogeneous ==
+  pool # <<>> =>
+    LET raw == Strip(Last)
+        d == HomDeg(raw)
+    IN (d # HD_None /\ d # HD_Any) =>
+         LET tb == Table(Last)
+             ts == Table(Ann(ShiftLeaves(raw)))
+             by == MkL(IPow(2, d), 1)
+         IN \A k \in 1..Len(tb) :
+              \A j \in 1..Len(tb[k].v) :
+                 IsU(tb[k].v[j]) \/ IsU(ts[k].v[j]) \/ ts[k].v[j] = Add(tb[k].v[j], by)
+
+-----------------------------------------------------------------------------
 (* emission: one JSON record per state, consumed by harness/replay *)
 
 PtsOf(ins) ==
@@ -334,7 +387,7 @@ PtsOf(ins) ==
 Project(t) ==
   LET ins == t.ti  tb == Table(t) IN
   [ins |-> ins, out |-> t.to, pts |-> PtsOf(ins), tab |-> tb,
-   core |-> GroundCore(t), dep |-> DependsOnTab(ins, tb)]
+   core |-> GroundCore(t), dep |-> DependsOnTab(ins, tb), hdeg |-> HomDeg(Strip(t))]
 
 Emit ==
   pool # <<>> /\ (nops > 0 \/ Len(pool) = 1) =>
